@@ -96,7 +96,7 @@ def run(ctx):
     disp = repo.find_class(DISPATCHER)
     cached = cached_methods(ctx, disp)
     chk.floor("R05.c", len(cached), 8, "memoised methods")
-    _no_reflection(ctx)
+    ctx.attempt(_no_reflection, ctx)
 
     # ---------------------------------------------------------------- R05.c
     for m in cached:
@@ -110,6 +110,22 @@ def run(ctx):
         else:
             chk.ok("R05.c", m.qualname, m.loc())
 
+    # a memoised query must return a re-iterable value: a generator / map /
+    # filter / zip object is consumed by the first caller and empty for the next
+    for m in cached:
+        for r in own_nodes(m.node):
+            if isinstance(r, ast.Return) and r.value is not None:
+                v = ctx.norm.xexpr(m, r.value)
+                one_shot = isinstance(v, ast.GeneratorExp) or (
+                    isinstance(v, ast.Call) and isinstance(v.func, ast.Name) and v.func.id in ("map", "filter", "zip", "iter", "reversed", "enumerate")
+                ) or any(isinstance(y, (ast.Yield, ast.YieldFrom)) for y in own_nodes(m.node))
+                if one_shot:
+                    chk.violation(
+                        "R05.d", m, r,
+                        f"the memoised {m.name}() returns a one-shot iterator (`{ast.unparse(r.value)[:50]}`): the memo hands the same "
+                        "object to every caller in this state, the first one exhausts it and the others see nothing",
+                        loc=m.loc(r),
+                    )
     # ------------------------------------------- read set of memoised queries
     eff = ctx.effects
     read_set: set[str] = set()
@@ -303,7 +319,7 @@ def run(ctx):
             chk.ok("R05.d", m.qualname, m.loc())
 
     # ---------------------------------------------------------------- R05.e
-    _unscheduled_observer(ctx)
+    ctx.attempt(_unscheduled_observer, ctx)
 
 
 def _is_clear(ev) -> bool:
@@ -334,9 +350,21 @@ def _writes(ctx, fi, rc):
 
 
 def _no_reflection(ctx):
+    # only code that ever holds a dispatcher / schedule / observer can reach
+    # their attributes by name
+    scope = ("job_shop_lib.dispatching", "job_shop_lib._schedule", "job_shop_lib._scheduled_operation",
+             "job_shop_lib.reinforcement_learning", "job_shop_lib.graphs", "job_shop_lib._base_solver")
     for fi in ctx.repo.all_functions():
+        if not fi.module.name.startswith(scope):
+            continue
         for n in own_nodes(fi.node):
             if isinstance(n, ast.Call) and isinstance(n.func, ast.Name) and n.func.id in ("setattr", "exec", "eval", "globals", "vars"):
+                if n.func.id == "setattr" and n.args:
+                    # setattr on an object of a foreign library (CP-SAT parameters ...)
+                    # cannot touch the attributes analysed here
+                    heads = ctx.res.classes_of(fi, n.args[0], fi.cls)
+                    if heads and not any(h in ctx.repo.classes for h in heads) and not (isinstance(n.args[0], ast.Name) and ctx.res._is_self(fi, n.args[0])):
+                        continue
                 raise AnalysisError(f"{fi.loc(n)}: reflection ({n.func.id}) defeats attribute-level effect analysis")
             if isinstance(n, ast.Attribute) and n.attr == "__dict__" and isinstance(n.ctx, ast.Store):
                 raise AnalysisError(f"{fi.loc(n)}: __dict__ store defeats attribute-level effect analysis")
@@ -353,6 +381,13 @@ def _unscheduled_observer(ctx):
     sop = upd.params[1]
     bad = False
     n_pop = 0
+    if any(
+        isinstance(n, ast.Call) and isinstance(n.func, ast.Attribute) and isinstance(n.func.value, ast.Name) and n.func.value.id == upd.params[0]
+        for n in own_nodes(upd.node)
+    ):
+        # steps / accessors of the observer are undone first (the deque may be
+        # fetched through one)
+        upd = ctx.norm.flat(upd, depth=3)
     for p in eng.paths(upd, obs):
         pops = []
         for ev in p.events:
